@@ -219,6 +219,60 @@ def v_global_two():
     return _global_design(2)
 
 
+ATTRS = {"zzz": 1}
+
+
+def v_attrs_dict():
+    """a context created with a comment AND an attributes dictionary that lives at module level: compiling the design must not
+    write into the caller's dictionary (the second compilation of the identical design would find the comment already set)"""
+    if "attrs" not in _shared:
+        class AttrsDict(Entity):
+            a = Port.input(Bit)
+            o = Port.output(Bit)
+
+            def architecture(self):
+                @std.concurrent(comment="hello", attributes=ATTRS)
+                def logic():
+                    self.o <<= self.a
+
+        _shared["attrs"] = AttrsDict
+    return _shared["attrs"], {}
+
+
+def v_context_probe():
+    """asks for the sequential context it is compiled in: none, whatever was compiled (or rejected) before"""
+    class ContextProbe(Entity):
+        a = Port.input(Bit)
+        o = Port.output(Bit)
+
+        def architecture(self):
+            @std.concurrent
+            def logic():
+                if std.SequentialContext.current() is None:
+                    self.o <<= self.a
+                else:
+                    self.o <<= ~self.a
+
+    return ContextProbe, {}
+
+
+def r_seqctx():
+    """rejected inside the body of a SequentialContext"""
+    class BadSeqCtx(Entity):
+        clk = Port.input(Bit)
+        a = Port.input(Bit)
+        o = Port.output(Bit)
+
+        def architecture(self):
+            ctx = std.SequentialContext(std.Clock(self.clk))
+
+            @ctx
+            def proc():
+                assert False, "rejected inside a sequential context"
+
+    return BadSeqCtx, {}
+
+
 def v_open_entity():
     class Sub(Entity):
         x = Port.input(Bit)
@@ -337,8 +391,8 @@ def r_drivers():
     return BadDrv, {}
 
 
-VALID = ["v_comb", "v_coroutine", "v_prefix", "v_named", "v_reserved", "v_hier", "v_open_entity", "v_commented", "v_base_port", "v_derived_inst", "v_aliased_signal", "v_global_one", "v_global_two"]
-REJECTED = ["r_statemachine", "r_context", "r_prefix", "r_architecture", "r_drivers"]
+VALID = ["v_comb", "v_coroutine", "v_prefix", "v_named", "v_reserved", "v_hier", "v_open_entity", "v_commented", "v_base_port", "v_derived_inst", "v_aliased_signal", "v_global_one", "v_global_two", "v_attrs_dict", "v_context_probe"]
+REJECTED = ["r_statemachine", "r_context", "r_prefix", "r_architecture", "r_drivers", "r_seqctx"]
 _cache = {}
 
 
